@@ -134,12 +134,19 @@ def run_art(cid, ctx, runs):
             if rf:
                 refused += 1
                 dist["refused"] += 1
+                if case.get("status", "").startswith("panic"):
+                    dist["panicked"] += 1
             if len(samples) < 3 and not rf:
                 samples.append({"id": cidx, "case": case["_line"][:300], "model": {k2: v for k2, v in res.items() if not k2.startswith("_")}})
             if of:
                 oracle_fail.append((cidx, case, of, path))
             if cf:
                 corr_fail.append((cidx, case, cf, path))
+    if dist.get("panicked", 0) * 20 > max(evaluations, 1):
+        # more than 5% of the cases panicked inside the harness: the generator feeds
+        # the implementation invalid inputs and the run would be vacuous
+        raise vlib.CheckError("%d of %d generated cases panicked in the harness (invalid generated inputs?)"
+                              % (dist["panicked"], evaluations))
     return {
         "evaluations": evaluations, "distinct_nontrivial": len(keys), "distribution": dict(dist),
         "samples": samples, "oracle_fail": oracle_fail, "corr_fail": corr_fail, "refused": refused,
